@@ -121,6 +121,17 @@ pub fn all_entry_points(lang_code: &str, text: &str, th: f64) -> Result<usize, S
         let again = (it.next().is_some(), it.next().is_some());
         (occs(v), again)
     })?;
+    // a lazy search over a practically endless stream (the text's tokens followed by usize::MAX ordinary
+    // words; size_hint = (usize::MAX, Some(usize::MAX))), abandoned once the text's own numbers have been
+    // returned: legitimate use of an iterator that "reads the stream on demand"
+    if !toks.is_empty() {
+        let first = no_panic("find_numbers(threshold 0)", || find_numbers(toks.iter(), lg, 0.0).len())?;
+        let filler = text2num::verif_hooks::BasicToken::new("xq");
+        let got = no_panic("find_numbers_iter over an endless stream", || find_numbers_iter(toks.iter().chain(std::iter::repeat(&filler).take(usize::MAX)), lg, 0.0).take(first).count())?;
+        if got != first {
+            return Err(format!("lazy search over an endless stream returned {} of the {} numbers of the text", got, first));
+        }
+    }
     let _ = (batch, lazy, out);
     // own tokens: whitespace split, every piece a token (ASR-like stream)
     let stream: Vec<Tk> = text.split_whitespace().enumerate().map(|(i, w)| Tk::new(i, w)).collect();
